@@ -23,6 +23,9 @@ pub enum Effect {
 pub enum Class {
     MustAccept(Effect),
     MustReject(&'static str),
+    /// Spelling the documentation leaves open: the line may be rejected, but IF it is executed it
+    /// must have exactly this effect.
+    Either(Effect, &'static str),
     Unspecified(&'static str),
 }
 
@@ -30,12 +33,21 @@ fn is_ws(c: char) -> bool {
     c == ' ' || c == '\t'
 }
 
+#[derive(Debug, PartialEq)]
+enum Lit {
+    Canonical(u8),
+    /// a number <= 255 in an unusual spelling (leading zeros, upper-case prefix)
+    Unusual(u8),
+    TooLarge,
+    NotANumber,
+}
+
 /// Canonical byte literal: decimal without leading zeros, 0x + 1..2 hex
-/// digits, 0b + 1..8 bits. Returns Ok(Some(v)) canonical and <= 255,
-/// Ok(None) not canonical, Err(()) well-formed number above 255.
-fn byte_literal(s: &str) -> Result<Option<u8>, ()> {
+/// digits, 0b + 1..8 bits (the token is already lower-cased; `upper_prefix`
+/// tells whether the original had 0X / 0B).
+fn byte_literal(s: &str, upper_prefix: bool) -> Lit {
     if s.is_empty() {
-        return Ok(None);
+        return Lit::NotANumber;
     }
     let (digits, radix) = if let Some(r) = s.strip_prefix("0x") {
         (r, 16)
@@ -45,7 +57,7 @@ fn byte_literal(s: &str) -> Result<Option<u8>, ()> {
         (s, 10)
     };
     if digits.is_empty() || !digits.chars().all(|c| c.is_digit(radix)) {
-        return Ok(None);
+        return Lit::NotANumber;
     }
     // value (saturating)
     let mut v: u64 = 0;
@@ -53,17 +65,17 @@ fn byte_literal(s: &str) -> Result<Option<u8>, ()> {
         v = (v * radix as u64 + c.to_digit(radix).unwrap() as u64).min(1 << 40);
     }
     if v > 255 {
-        return Err(());
+        return Lit::TooLarge;
     }
     let canonical = match radix {
         10 => digits == "0" || !digits.starts_with('0'),
         16 => digits.len() <= 2,
         _ => digits.len() <= 8,
     };
-    if canonical {
-        Ok(Some(v as u8))
+    if canonical && !upper_prefix {
+        Lit::Canonical(v as u8)
     } else {
-        Ok(None)
+        Lit::Unusual(v as u8)
     }
 }
 
@@ -93,10 +105,12 @@ pub fn classify(line: &str) -> Class {
         let t = line.trim_matches(is_ws);
         return match classify(t) {
             MustReject(r) if !t.is_empty() => MustReject(r),
+            MustAccept(e) | Either(e, _) => Either(e, "leading or trailing blanks"),
             _ => Unspecified("leading or trailing blanks"),
         };
     }
     let lower = line.to_lowercase();
+    let upper_prefix = line.contains("0X") || line.contains("0B");
     if !KEYWORDS.iter().any(|k| lower.starts_with(k)) {
         return MustReject("no command keyword");
     }
@@ -133,20 +147,22 @@ pub fn classify(line: &str) -> Class {
         }
         return match rest {
             [_, "="] => MustReject("missing value"),
-            [_, "=", v] => match byte_literal(v) {
-                Ok(Some(x)) => MustAccept(SetInput(r, x)),
-                Err(()) => MustReject("value above 255"),
-                Ok(None) => Unspecified("non-canonical value"),
+            [_, "=", v] => match byte_literal(v, upper_prefix) {
+                Lit::Canonical(x) => MustAccept(SetInput(r, x)),
+                Lit::TooLarge => MustReject("value above 255"),
+                Lit::Unusual(x) => Either(SetInput(r, x), "unusual spelling of the value"),
+                Lit::NotANumber => Unspecified("value is not a number"),
             },
             _ => Unspecified("register assignment with extra or missing tokens"),
         };
     }
     match t.as_slice() {
         ["set", "irg", "="] | ["set", "temp", "="] | ["set", "i1", "="] | ["set", "i2", "="] => MustReject("missing value"),
-        ["set", "irg", "=", v] => match byte_literal(v) {
-            Ok(Some(x)) => MustAccept(SetIrg(x)),
-            Err(()) => MustReject("value above 255"),
-            Ok(None) => Unspecified("non-canonical value"),
+        ["set", "irg", "=", v] => match byte_literal(v, upper_prefix) {
+            Lit::Canonical(x) => MustAccept(SetIrg(x)),
+            Lit::TooLarge => MustReject("value above 255"),
+            Lit::Unusual(x) => Either(SetIrg(x), "unusual spelling of the value"),
+            Lit::NotANumber => Unspecified("value is not a number"),
         },
         ["set", which @ ("temp" | "i1" | "i2"), "=", v] => match simple_float(v) {
             Some(f) => MustAccept(match *which {
@@ -178,6 +194,7 @@ pub fn classify(line: &str) -> Class {
             }
         }
         ["quit"] => MustAccept(Quit),
+        ["exit"] => Either(Quit, "undocumented alias of quit"),
         ["load"] => MustReject("missing path"),
         ["load", ..] => {
             // the path is the rest of the line after "load" and one blank, verbatim
